@@ -255,6 +255,9 @@ func eq32(bm *roaring.Bitmap, m *model.Set32) (ok bool, detail string) {
 	}()
 	want := m.Card()
 	got := bm.GetCardinality()
+	if want > GiantCard {
+		return eq32big(bm, m, got, want)
+	}
 	if got > 1<<28 {
 		return false, fmt.Sprintf("cardinality %d absurd (want %d)", got, want)
 	}
@@ -284,6 +287,97 @@ func eq32(bm *roaring.Bitmap, m *model.Set32) (ok bool, detail string) {
 	}
 	return true, ""
 }
+
+// GiantCard: above this many elements a bitmap is compared chunk-wise instead of
+// element-wise (universe-scale ranges: AddRange(0, 2^32), complements).
+const GiantCard = 3 << 20
+
+// eq32big compares a very large bitmap with its model: exact total cardinality, every
+// full chunk of the model through CardinalityInRange, every partial chunk element by
+// element through an iterator positioned with AdvanceIfNeeded.
+func eq32big(bm *roaring.Bitmap, m *model.Set32, got, want uint64) (bool, string) {
+	if got != want {
+		return false, fmt.Sprintf("cardinality: GetCardinality=%d model=%d", got, want)
+	}
+	it := bm.Iterator()
+	for _, k := range m.Keys() {
+		lo := uint64(k) << 16
+		if m.IsFullChunk(k) {
+			if c := bm.CardinalityInRange(lo, lo+65536); c != 65536 {
+				return false, fmt.Sprintf("chunk %#x should be full, CardinalityInRange=%d", k, c)
+			}
+			continue
+		}
+		it.AdvanceIfNeeded(uint32(lo))
+		bad := ""
+		m.EachInChunk(k, func(x uint32) bool {
+			if !it.HasNext() {
+				bad = fmt.Sprintf("missing %d (%#x)", x, x)
+				return false
+			}
+			if v := it.Next(); v != x {
+				bad = fmt.Sprintf("chunk %#x: got %d want %d", k, v, x)
+				return false
+			}
+			return true
+		})
+		if bad != "" {
+			return false, bad
+		}
+		if it.HasNext() && uint64(it.PeekNext()) < lo+65536 {
+			return false, fmt.Sprintf("chunk %#x: extra element %d", k, it.PeekNext())
+		}
+	}
+	if bm.IsEmpty() {
+		return false, "IsEmpty on a non-empty bitmap"
+	}
+	return true, ""
+}
+
+// buildFromModel constructs a bitmap holding exactly m through a clean route
+// (ranges for full chunks, bulk adds for the rest).
+func buildFromModel(m *model.Set32) *roaring.Bitmap {
+	bm := roaring.New()
+	if m.Card() <= GiantCard {
+		bm.AddMany(m.Slice())
+		return bm
+	}
+	ks := m.Keys()
+	for i := 0; i < len(ks); i++ {
+		k := ks[i]
+		if m.IsFullChunk(k) {
+			j := i
+			for j+1 < len(ks) && ks[j+1] == ks[j]+1 && m.IsFullChunk(ks[j+1]) {
+				j++
+			}
+			bm.AddRange(uint64(k)<<16, (uint64(ks[j])+1)<<16)
+			i = j
+			continue
+		}
+		var vals []uint32
+		m.EachInChunk(k, func(x uint32) bool { vals = append(vals, x); return true })
+		bm.AddMany(vals)
+	}
+	return bm
+}
+
+// HasGiant reports whether any object of the world is universe-scale.
+func (w *World) HasGiant() bool {
+	for _, o := range w.B {
+		if o.M.NumChunks() > 600 && o.M.Card() > GiantCard {
+			return true
+		}
+	}
+	for _, o := range w.X.B64 {
+		if o.M.Card() > GiantCard {
+			return true
+		}
+	}
+	return false
+}
+
+// giant reports whether slot i currently holds a universe-scale set.
+func (w *World) giant(i int) bool { return w.B[i].M.Card() > GiantCard }
 
 func firstDiff(arr []uint32, m *model.Set32) string {
 	i := 0
@@ -321,8 +415,7 @@ func (w *World) rebuild(i int) {
 	if o.ZeroCopy {
 		cow = false
 	}
-	bm := roaring.New()
-	bm.AddMany(o.M.Slice())
+	bm := buildFromModel(o.M)
 	if cow {
 		bm.SetCopyOnWrite(true)
 	}
